@@ -109,6 +109,7 @@ func replayDepth(args []string) int {
 	out := fs.String("out", "", "report file")
 	_ = fs.Parse(args)
 	rep := &report{Command: "replay-depth"}
+	differ := 0
 	err := readNDJSON(*cases, func(line []byte) error {
 		var c depthCase
 		if err := json.Unmarshal(line, &c); err != nil {
@@ -129,6 +130,37 @@ func replayDepth(args []string) int {
 		} else if gn != nil {
 			nets["genome"] = gn
 		}
+		// the uncapped answer of a fresh instance of every network (reference for the cap law on networks with cycles)
+		fresh := map[string]int{}
+		nNodes := len(c.Sensors) + len(c.Hidden) + len(c.Outputs)
+		if !c.Acyclic {
+			fdone := make(chan string, 1)
+			go func() {
+				msg := ""
+				if p := guard(func() {
+					fresh["direct"], _ = c.direct().MaxActivationDepthWithCap(0)
+					if _, ok := nets["genome"]; ok {
+						if gn, err := c.viaGenome(); err == nil && gn != nil {
+							fresh["genome"], _ = gn.MaxActivationDepthWithCap(0)
+						}
+					}
+				}); p != "" {
+					msg = "uncapped depth query on a fresh network panicked: " + p
+				}
+				fdone <- msg
+			}()
+			select {
+			case msg := <-fdone:
+				if msg != "" {
+					rep.fail(map[string]interface{}{"case": json.RawMessage(append([]byte(nil), line...)), "what": msg, "signature": "depth " + string(line)})
+					return nil
+				}
+			case <-time.After(5 * time.Second):
+				rep.fail(map[string]interface{}{"case": json.RawMessage(append([]byte(nil), line...)),
+					"what": "uncapped depth query on a fresh network did not terminate within 5s", "signature": "depth " + string(line)})
+				return nil
+			}
+		}
 		for name, net := range nets {
 			bad := ""
 			done := make(chan struct{})
@@ -148,9 +180,30 @@ func replayDepth(args []string) int {
 						return
 					}
 					rep.Evaluations++
-					if r != q.R || (qerr != nil) != q.Err {
-						bad += fmt.Sprintf("query %d (cap %d) returned (%d, err=%v), specification says (%d, err=%v); ",
-							qi, q.Cap, r, qerr != nil, q.R, q.Err)
+					if c.Acyclic {
+						// the statement fixes the value: longest path ending in an output, cap law on top of it
+						if r != q.R || (qerr != nil) != q.Err {
+							bad += fmt.Sprintf("query %d (cap %d) returned (%d, err=%v), specification says (%d, err=%v); ",
+								qi, q.Cap, r, qerr != nil, q.R, q.Err)
+						}
+					} else {
+						// networks with cycles: the statement asks for termination, a depth in 0..number of nodes, the cap law
+						// relative to the UNCAPPED answer (taken from a fresh twin network) and stable answers; the depth the
+						// specification's transcription of the search arrives at is information only
+						wantR, wantErr := fresh[name], false
+						if q.Cap > 0 && fresh[name] > q.Cap {
+							wantR, wantErr = q.Cap, true
+						}
+						if r != wantR || (qerr != nil) != wantErr {
+							bad += fmt.Sprintf("query %d (cap %d) returned (%d, err=%v) on a network whose uncapped depth (fresh instance) is %d: the cap law / repeat stability gives (%d, err=%v); ",
+								qi, q.Cap, r, qerr != nil, fresh[name], wantR, wantErr)
+						}
+						if r < 0 || r > nNodes {
+							bad += fmt.Sprintf("query %d (cap %d) returned depth %d outside 0..%d (number of nodes); ", qi, q.Cap, r, nNodes)
+						}
+						if r != q.R || (qerr != nil) != q.Err {
+							differ++
+						}
 					}
 					if qerr != nil && qerr != network.ErrMaximalNetDepthExceeded {
 						bad += fmt.Sprintf("query %d returned unexpected error %v; ", qi, qerr)
@@ -179,5 +232,9 @@ func replayDepth(args []string) int {
 		fmt.Println("vh replay-depth:", err)
 		return 2
 	}
+	if rep.Extra == nil {
+		rep.Extra = map[string]interface{}{}
+	}
+	rep.Extra["cyclic_answers_differing_from_the_transcribed_search"] = differ // information, not a verdict
 	return rep.write(*out)
 }
